@@ -172,14 +172,41 @@ func cloneOpts(ks, st bool) []clone.Option {
 	return o
 }
 
-// doClone calls the real clone function of the object's kind. A nil result is returned as a nil Object.
-func doClone(obj workflow.Object, ks, st bool) (res workflow.Object, panicked string) {
+var ctxKinds = []string{"live", "cancelled", "deadline-passed", "cancelled-during-call"}
+
+// mkCtx builds the Context a clone function is called with. The property has no exception for the state of
+// that Context: a clone made under a cancelled or expired Context must be the clone made under a live one.
+func mkCtx(kind int) (context.Context, func()) {
+	switch kind % 4 {
+	case 1:
+		ctx, cancel := context.WithCancel(context.Background())
+		cancel()
+		return ctx, func() {}
+	case 2:
+		ctx, cancel := context.WithDeadline(context.Background(), time.Now().Add(-time.Second))
+		return ctx, cancel
+	case 3:
+		// cancelled from another goroutine while the call is (probably) running: best effort
+		ctx, cancel := context.WithCancel(context.Background())
+		go func() {
+			runtime.Gosched()
+			cancel()
+		}()
+		return ctx, cancel
+	}
+	return context.Background(), func() {}
+}
+
+// doClone calls the real clone function of the object's kind under a Context of the given kind.
+// A nil result is returned as a nil Object.
+func doClone(obj workflow.Object, ks, st bool, ctxKind int) (res workflow.Object, panicked string) {
 	defer func() {
 		if r := recover(); r != nil {
 			res, panicked = nil, fmt.Sprintf("%v\n%s", r, debug.Stack())
 		}
 	}()
-	ctx := context.Background()
+	ctx, done := mkCtx(ctxKind)
+	defer done()
 	o := cloneOpts(ks, st)
 	switch x := obj.(type) {
 	case *workflow.Plan:
@@ -309,6 +336,7 @@ func submits(ws *coercion.Workstream, w *workflow.Plan) (ok bool, msg string) {
 type obsOut struct {
 	KeepSecrets bool   `json:"keep_secrets"`
 	KeepState   bool   `json:"keep_state"`
+	Ctx         string `json:"context"`
 	Nil         bool   `json:"nil_result"`
 	Validate    bool   `json:"validate_ok"`
 	ValidateMsg string `json:"validate_msg,omitempty"`
@@ -421,13 +449,16 @@ func main() {
 		var notes []string
 		for _, ks := range []bool{false, true} {
 			for _, st := range []bool{false, true} {
-				oo := obsOut{KeepSecrets: ks, KeepState: st}
+				// the Context kind rotates with the case and the option set: a case sees all four kinds, a run
+				// sees every (object kind, option set, Context kind) combination
+				ck := (i/6 + len(obsOuts)) % 4
+				oo := obsOut{KeepSecrets: ks, KeepState: st, Ctx: ctxKinds[ck]}
 				fail := func(code int, msg string) {
 					if oo.Go == 0 {
 						oo.Go, oo.GoMsg = code, msg
 					}
 				}
-				c, pan := doClone(b.obj, ks, st)
+				c, pan := doClone(b.obj, ks, st, ck)
 				alive = append(alive, c)
 				if pan != "" {
 					fail(4, "clone panicked: "+pan)
@@ -458,11 +489,23 @@ func main() {
 					oo.Nil = true
 				}
 
+				// the clone must not depend on the Context: under every kind of Context the same clone as under a live one
+				liveC, _ := doClone(b.obj, ks, st, 0)
+				liveDump := c18x.Dump(liveC)
+				for k := 1; k < 4; k++ {
+					ck2, pan2 := doClone(b.obj, ks, st, k)
+					if pan2 != "" {
+						fail(4, "clone panicked under a "+ctxKinds[k]+" context: "+pan2)
+					} else if d := c18x.FirstDiff(liveDump, c18x.Dump(ck2)); d != "" {
+						fail(7, "the clone made under a "+ctxKinds[k]+" context differs from the one made under a live context: "+d)
+					}
+				}
+
 				// Validate and Submit, each on a clone of its own
-				if c2, _ := doClone(b.obj, ks, st); c2 != nil {
+				if c2, _ := doClone(b.obj, ks, st, ck); c2 != nil {
 					oo.Validate, oo.ValidateMsg = validates(set, wrap(c2, b.isCheckA))
 				}
-				if c3, _ := doClone(b.obj, ks, st); c3 != nil {
+				if c3, _ := doClone(b.obj, ks, st, ck); c3 != nil {
 					oo.Submit, oo.SubmitMsg = submits(ws, wrap(c3, b.isCheckA))
 					if d := c18x.FirstDiff(origDump, c18x.Dump(b.obj)); d != "" {
 						fail(5, "submitting the clone changed the original: "+d)
@@ -473,7 +516,7 @@ func main() {
 				// is printed is never written to by the harness.
 				// (a) mutate everything in the clone, observe the original
 				bA := build(root, i, set, *big)
-				if cA, _ := doClone(bA.obj, ks, st); cA != nil {
+				if cA, _ := doClone(bA.obj, ks, st, ck); cA != nil {
 					snap := c18x.Dump(bA.obj)
 					func() {
 						defer func() {
@@ -489,7 +532,7 @@ func main() {
 				}
 				// (b) mutate everything in the original, observe its clone
 				bB := build(root, i, set, *big)
-				if cB, _ := doClone(bB.obj, ks, st); cB != nil {
+				if cB, _ := doClone(bB.obj, ks, st, ck); cB != nil {
 					snap := c18x.Dump(cB)
 					func() {
 						defer func() {
@@ -531,5 +574,4 @@ func main() {
 		w.Put(cs)
 		runtime.KeepAlive(alive)
 	}
-	_ = time.Now
 }
